@@ -98,9 +98,18 @@ theorem slotInv_started {env : Env} {s : State} (L : SlotInv env s) {n : Nat}
     rw [started_value]
     exact L.good m e er hk he hc ed hed hcb
 
-theorem bf_started (D : Nat → Prop) (n : Nat) (s : State) : BF D s (started n s) :=
+theorem bf_started (D : Nat → Prop) (n : Nat) (s : State) (hn : ∀ e, (s.nodeD n).kind ≠ .expert e) :
+    BF D s (started n s) :=
   ⟨Nat.le_of_eq (DriverH.started_size n s).symm, fun m _ => DriverH.started_kind n s m, rfl,
-    fun _ er h => ⟨er, h, rfl, rfl, fun _ => rfl, [], (List.append_nil _).symm⟩⟩
+    fun _ er h => ⟨er, h, rfl, rfl, fun _ => rfl, [], (List.append_nil _).symm⟩,
+    fun m e _ hk hs => V_stamp_keep hk (DriverH.started_kind n s m) (by
+      rw [started_nodeD]
+      split
+      · rename_i h
+        have : m = n := h.1.symm
+        subst this
+        exact absurd hk (hn e)
+      · rfl) (fun h => h) hs⟩
 
 theorem pot_started {s : State} {ψ : Nat → Nat} (P : Pot s ψ) (n : Nat) : Pot (started n s) ψ := by
   refine ⟨fun a c ha hc => ?_, P.top, P.op, fun a ha => ?_⟩
@@ -133,7 +142,7 @@ theorem li_start_of {env : Env} {s : State} {n op eres : Nat} {pr : PerKeyRec} (
   · intro pr' hp'
     rw [hpop] at hp'
     cases hp'
-    exact OpCore.bf_same_size (bf_started (fun _ => False) n s) F Hop.core (DriverH.started_size n s)
+    exact OpCore.bf_same_size (bf_started (fun _ => False) n s hne) F Hop.core (DriverH.started_size n s)
       (fun e er er' h1 h2 => by
         have h2' : s.experts[e]? = some er' := h2
         rw [h1] at h2'; cases h2'; rfl)
